@@ -16,3 +16,9 @@ func verifSerialRoundTrip(seq byte, subject string, points data.Points) ([]byte,
 	s, sub, payload, err := SerialDecode(d)
 	return d, s, sub, payload, err
 }
+
+// verifGhost carries ghost state of the manager contracts (C07): skipped(verifG, key) records that scan logged a
+// failed construction for the placement key. Never used by non-verification builds (build tag verif).
+type verifGhost struct{}
+
+var verifG = &verifGhost{}
